@@ -262,6 +262,11 @@ func ruleCallbackBeforeMutation(h *H, rule string) {
 		spec := ir.Callee{Pkg: "server/kv", Recv: "UpdateOperationCallback", Name: pair.cb}
 		for _, s := range h.P.AllCalls(ir.InPkg("server/kv"), spec) {
 			h.Fn(ir.FuncName(s.Fn))
+			// a per-entry step written as a local closure stands at its call site
+			if up := liftThroughLocalClosure(s.Call); up != s.Call {
+				s.Call, s.Fn = up, up.Parent()
+				h.Fn(ir.FuncName(s.Fn))
+			}
 			muts := h.callsOrHelpers(s.Fn, pair.mut)
 			if pair.cb == "OnDeleteWithEntry" {
 				muts = h.callsOrHelpers(s.Fn, pair.mut, batchDelete)
@@ -679,7 +684,7 @@ func ruleR14f(h *H) {
 				paired = func(fn *ssa.Function, at ssa.Instruction, owner ssa.Value, idArg ssa.Value, depth int) bool {
 					stopsHere := func(x ssa.Instruction) bool {
 						recv, ok := isStop(x)
-						return ok && (owner == nil || ir.Canon(recv) == owner)
+						return ok && (owner == nil || ir.Canon(recv) == owner || ir.SameExpr(recv, owner))
 					}
 					found := false
 					ir.Instrs(fn, func(x ssa.Instruction) {
